@@ -39,6 +39,10 @@ func authnInline(P *Program) func(*ssa.Function) bool {
 }
 
 func runC15(c *Ctx) {
+	defer checkParseSignatureFirst(c, "C15.R10")
+	defer checkJWKSCacheKey(c, "C15.R8")
+	defer checkClientGetters(c, "C15.R9", clientGetter{"DefaultOpenIDConnectClient", "GetTokenEndpointAuthSigningAlgorithm", "TokenEndpointAuthSigningAlgorithm", "RS256"}, clientGetter{"DefaultOpenIDConnectClient", "GetJSONWebKeys", "JSONWebKeys", ""}, clientGetter{"DefaultOpenIDConnectClient", "GetJSONWebKeysURI", "JSONWebKeysURI", ""})
+	defer checkVerifyAud(c, "C15.R7")
 	defer checkStoreLooksUp(c, "C15.R6", "GetPublicKey", 2, 3, 4)
 	defer checkStoreLooksUp(c, "C15.R6", "GetPublicKeys", 2, 3)
 	defer checkStoreKeyed(c, "C15.R6", storeRow{meth: "SetClientAssertionJWT", table: "BlacklistedJTIs", op: "create", key: 2}, storeRow{meth: "ClientAssertionJWTValid", table: "BlacklistedJTIs", op: "lookup", key: 2})
